@@ -10,6 +10,15 @@ Specification for C16, written from the words of the property (not from the code
 The judge looks only at what a client of the limiter can observe: which requests are inside the wrapped `do`
 function after each event has settled, which calls returned and how, and (at the end) whether the limiter is empty
 and admits fresh requests.  It knows nothing about counters, queues or channels.
+
+What "admitted in arrival order" promises.  The sentence is about requests *waiting for the same path*, i.e. held back by
+the per-path limit: they obtain the path's slots in arrival order.  It does not order requests that are past the per-path
+limit and compete for the total limit (with an endpoint limit ≥ 2 two requests of one path can both hold a path slot; which
+of them then gets a free total slot first is up to the scheduler), and it says nothing about two calls made "at the same
+time" (neither call has returned control to the caller before the other is made — in a history: the same line).  So
+* "a arrived before b" means: a's call was made in an earlier line than b's, and
+* a client can tell that the earlier request a is waiting *for the path* exactly when all slots of the path are in flight
+  while a has neither started nor returned; then no later request of that path may be in flight.
 -/
 namespace CoapVerif.Spec.Limiter
 
@@ -32,7 +41,9 @@ structure Cfg where
 
 structure JState where
   cfg : Cfg
-  arrivals : List (Nat × Nat) := []   -- (id, path) in arrival order
+  line : Nat := 0                     -- number of lines judged so far
+  arrivals : List (Nat × Nat) := []   -- (id, path) in textual order
+  arrivedAt : List (Nat × Nat) := []  -- (id, line in which its call was made)
   cancelled : List Nat := []
   started : List Nat := []            -- has been inside `do` at some observation
   returned : List Nat := []
@@ -52,17 +63,23 @@ def waiting (st : JState) (id : Nat) : Bool :=
 
 def applyEv (st : JState) : Ev → JState
   | .arrive id p pre =>
-    { st with arrivals := st.arrivals ++ [(id, p)], cancelled := if pre then id :: st.cancelled else st.cancelled }
+    { st with arrivals := st.arrivals ++ [(id, p)], arrivedAt := (id, st.line) :: st.arrivedAt,
+              cancelled := if pre then id :: st.cancelled else st.cancelled }
   | .cancel id => { st with cancelled := id :: st.cancelled }
   | .finish id => { st with finishReq := id :: st.finishReq }
 
-/-- ids that arrived before `b` (arrival order) -/
-def arrivedBefore (st : JState) (b : Nat) : List Nat := (st.arrivals.takeWhile (·.1 != b)).map (·.1)
+def lineOf (st : JState) (id : Nat) : Option Nat := (st.arrivedAt.find? (·.1 == id)).map (·.2)
+
+/-- ids whose call was made in an earlier line than `b`'s (calls of one line have no order) -/
+def arrivedBefore (st : JState) (b : Nat) : List Nat :=
+  match lineOf st b with
+  | none => []
+  | some lb => (st.arrivedAt.filter (fun e => e.2 < lb)).map (·.1)
 
 /-- One line of a history: the events applied, then the settled observation.  `Except.error clause` names the clause
     of the property that the observation contradicts. -/
 def judgeLine (st0 : JState) (evs : List Ev) (o : Obs) : Except String JState := do
-  let st := evs.foldl applyEv st0
+  let st := evs.foldl applyEv { st0 with line := st0.line + 1 }
   let single := evs.length == 1
   -- sanity of the observation itself (a call runs only between its arrival and its return)
   for id in o.running do
@@ -82,13 +99,16 @@ def judgeLine (st0 : JState) (evs : List Ev) (o : Obs) : Except String JState :=
   for (_, p) in st.arrivals do
     let n := count o.running (fun i => pathOf st i == some p)
     if !(within n st.cfg.epLimit) then throw s!"endpoint-limit: {n} requests in flight for path {p}, endpoint limit {st.cfg.epLimit}"
-  -- admission in arrival order per path
+  -- admission to a path in arrival order: when all slots of a path are in flight, an earlier request of that path that has
+  -- neither started nor returned waits for the path, and then no later request of the path may be in flight
   let newly := o.running.filter (fun i => !st.started.contains i)
   let st1 := { st with started := newly ++ st.started, returned := o.returned.map (·.1) ++ st.returned, running := o.running }
-  for b in newly do
-    for a in arrivedBefore st b do
-      if pathOf st a == pathOf st b && waiting st1 a && !(st.cancelled.contains a) then
-        throw s!"fifo: request {b} admitted for path {(pathOf st b).getD 0} while the earlier request {a} still waits"
+  for b in o.running do
+    let n := count o.running (fun i => pathOf st i == pathOf st b)
+    if st.cfg.epLimit != 0 && n ≥ st.cfg.epLimit then
+      for a in arrivedBefore st b do
+        if pathOf st a == pathOf st b && waiting st1 a && !(st.cancelled.contains a) then
+          throw s!"fifo: request {b} is in flight for path {(pathOf st b).getD 0} (all {st.cfg.epLimit} slots in flight) while the earlier request {a} still waits for the path"
   -- a cancellation alone frees nothing and admits nobody
   if single then
     match evs with
